@@ -577,6 +577,55 @@ fn gen_program(r: &mut Rng) -> Vec<Op> {
     g.ops
 }
 
+/// Nested loops with a jump (unconditional, conditional on the parity of a counter, or the skip of a zero-iteration
+/// loop) inside the INNER body whose landing point is chosen around the ends of both bodies: just outside the inner
+/// loop, in the rest of the outer body, exactly one past the outer body (with outer repetitions left), two past it,
+/// on a further Loop instruction that follows, or beyond the program. Four counters record how often each part ran.
+fn loop_escape_program(r: &mut Rng) -> Vec<Op> {
+    let bump = |a: u16| vec![Op::LoadImm(a), pushi(1), Op::Add, Op::StoreImm(a)];
+    let mut ops = vec![];
+    for a in 10..14u16 {
+        ops.push(pushi(0));
+        ops.push(Op::StoreImm(a));
+    }
+    let n1 = *r.pick(&[1u16, 2, 3, 4]);
+    let n2 = *r.pick(&[1u16, 2, 3]);
+    let tail_outer: Vec<Op> = if r.chance(1, 2) { bump(13) } else { vec![] };
+    let after: Vec<Op> = match r.below(4) {
+        0 => bump(13),
+        1 | 2 => {
+            let mut v = vec![Op::Loop(*r.pick(&[1u16, 2, 3]), 4)];
+            v.extend(bump(13));
+            v
+        }
+        _ => vec![],
+    };
+    let gap = match r.below(7) {
+        0 => 4,
+        1 | 2 | 3 => 4 + tail_outer.len(),
+        4 => 4 + tail_outer.len() + 1,
+        5 => 4 + tail_outer.len() / 2,
+        _ => 4 + tail_outer.len() + after.len() + r.usize(3),
+    } as u16;
+    let jump: Vec<Op> = match r.below(5) {
+        0 | 1 => vec![Op::Jmp(gap)],
+        2 | 3 => vec![Op::LoadImm(11), pushi(2), Op::Rem, Op::Bnz(gap)],
+        _ => vec![Op::Loop(0, gap)],
+    };
+    let mut inner = bump(11);
+    inner.extend(jump);
+    inner.extend(bump(12));
+    let mut outer = bump(10);
+    outer.push(Op::Loop(n2, inner.len() as u16));
+    outer.extend(inner);
+    outer.extend(tail_outer);
+    ops.push(Op::Loop(n1, outer.len() as u16));
+    ops.extend(outer);
+    ops.extend(after);
+    ops.extend([Op::VEmpty, Op::LoadImm(13), Op::VCons, Op::LoadImm(12), Op::VCons, Op::LoadImm(11), Op::VCons, Op::LoadImm(10), Op::VCons]);
+    ops
+}
+
 // ---------------------------------------------------------------------------------------------
 // environment access
 
@@ -662,7 +711,7 @@ fn env_programs(r: &mut Rng) -> Vec<Op> {
 
 pub fn run(p: &Params) -> Report {
     let mut rep = Report::new("C10");
-    rep.rule = "cases = (program, initial heap/transaction/environment): (i) every program of length <= 4 over a 16-instruction alphabet x 3 heaps, enumerated; (ii) type-aware random programs with counted and nested loops (iteration counters kept in the heap), forward jumps in/out of loops, boundary slices/indices/exponents/truncation, mixed-type operands; (ii-b) byte strings of 2^16 / 2^17 (+ a few) bytes built by self-appending and handed to Hash / SigEOk / BtoI / BLength with bounds around the length modulo 2^16; (iii) random decodable instruction lists; (iv) environment-reading programs over random transactions, coins and headers run through Covenant::execute. Oracle: independent reference interpreter; final result compared through the public API and, through the hooked executor, pc/stack/heap after every instruction; repeated and cross-thread runs must agree. Non-trivial = reference executed >= 3 instructions; distinct by (program, heap). Shift amounts are taken modulo 256 (DESIGN 5.6). Excluded and counted: loop bodies running past the end, empty loop bodies, lengths above 2^22".into();
+    rep.rule = "cases = (program, initial heap/transaction/environment): (i) every program of length <= 4 over a 16-instruction alphabet x 3 heaps, enumerated; (ii) type-aware random programs with counted and nested loops (iteration counters kept in the heap), forward jumps in/out of loops, boundary slices/indices/exponents/truncation, mixed-type operands; (ii-a) nested loops with an unconditional / conditional jump or a zero-iteration loop skip inside the inner body landing just outside it, in the rest of the outer body, one or two past the outer body, on a following Loop, or beyond the program; (ii-b) byte strings of 2^16 / 2^17 (+ a few) bytes built by self-appending and handed to Hash / SigEOk / BtoI / BLength with bounds around the length modulo 2^16; (iii) random decodable instruction lists; (iv) environment-reading programs over random transactions, coins and headers run through Covenant::execute. Oracle: independent reference interpreter; final result compared through the public API and, through the hooked executor, pc/stack/heap after every instruction; repeated and cross-thread runs must agree. Non-trivial = reference executed >= 3 instructions; distinct by (program, heap). Shift amounts are taken modulo 256 (DESIGN 5.6). Excluded and counted: loop bodies running past the end, empty loop bodies, lengths above 2^22".into();
     let mut r = Rng::new(p.shard_seed() ^ 0xC10);
     let hs = heaps(&mut Rng::new(p.seed));
     // (i) exhaustive
@@ -703,6 +752,14 @@ pub fn run(p: &Params) -> Report {
             let (o, steps) = refvm::run(&ops, ref_heap_of(h));
             rep.sample(json!({"program": ops_brief(&ops), "reference_result": format!("{:?}", refvm::outcome_truthy(&o)), "steps": steps, "final": match o { Outcome::Value(v) => rv_brief(&v), other => format!("{:?}", other) }}));
         }
+    }
+    // (ii-a) jumps out of an inner loop, landing around the end of the enclosing one
+    let n_esc = if cfg!(miri) { 8 } else { p.share(p.n(60_000, 1_500_000)) };
+    for _ in 0..n_esc {
+        let ops = loop_escape_program(&mut r);
+        let h = &hs[r.usize(hs.len())];
+        compare(&mut rep, &ops, h, "loop-escape", true);
+        rep.count("programs jumping out of an inner loop around the end of the enclosing loop");
     }
     // (ii-b) long byte strings (2^16 and 2^17 bytes and a little more, built by self-appending) handed to the
     // length-bounded instructions: a bound compared in a narrower integer type shows here and nowhere below 65536
